@@ -212,4 +212,12 @@ actions (or alone, from the fallback) -/
 theorem C04_handler_order :
     skelOf regFile "handler" = ["fallback.read", "data.read", "prev.execute", "action", "prev.execute"] := by decide
 
+/-- **C04.chained_call_shape** — tie to the source (regenerated): `Prev::execute` first excludes a null
+pointer, `SIG_DFL` and `SIG_IGN` - in one guard, before it looks at any flag, so a special disposition is
+never called whatever `sa_flags` it was installed with - and only then lets `SA_SIGINFO` choose between the
+one-argument and the three-argument call, each made once. This is the model's `Disp` (`dfl`/`ign` are not
+called, `h1 f` is called with the number, `h3 f` with number, info and context). -/
+theorem C04_chained_call_shape :
+    skelOf regFile "execute#1" = ["guard.special", "if", "if", "siginfo.clear", "call.1", "else", "call.3"] := by decide
+
 end SigHook.RegConc
